@@ -29,18 +29,37 @@ import (
 //
 // Supported statements: expression statement (call), assignment (=, :=, op=), ++/--, var
 // declaration, return, if / else / else-if (with init), for (init; cond; post), range, block,
-// empty statement, and `defer c.lock.Unlock()` as a direct child of the method body (the
-// unlock is then emitted before every later return and at the end of the body).
-// Everything else (go, other defers, switch, select, break/continue/goto, labels, send,
-// function literals, type assertions, pointer dereference, address-of outside the forms
-// below, calls of unknown functions, method calls on the cache) is an error.
+// empty statement, `continue` in tail position of a loop body (see stmts), and
+// `defer c.lock.Unlock()` / `defer c.lock.Lock()` as direct children of a function body (the
+// deferred calls registered so far are emitted, last first, before every later return of that
+// function and at the end of its body).
+// Everything else (go, other defers, switch, select, break/goto, labels, send, function
+// literals, type assertions, pointer dereference, address-of outside the forms below, calls
+// of unknown functions) is an error.
+//
+// ENTRY POINTS are the exported methods of *cache (Clear, Set, Get, Del, Stats must be among
+// them).  A call of another method of cache (`c.helper(…)`, c the receiver), of a method of
+// *item, or of an unexported package-level function declared in cache/*.go is INLINED: the
+// accesses of the receiver/argument expressions in order, then `call name <translated body of
+// the callee>` (see inline).  Inside the callee its receiver / *cache parameter denotes the
+// same shared cache (the argument must be the caller's receiver itself), a *item parameter
+// denotes the caller's fresh item iff the argument is the variable holding it (`it` after
+// `it := &item{…}`, or `&it` for `it := item{}`) and a published item otherwise.  Recursion
+// (direct or mutual) is an error.  Unexported helpers are analysed only through their call
+// sites (a helper that expects the lock to be held would be rejected on its own); a helper
+// touching cache or item fields that no entry point reaches is an error unless it is only
+// reachable from newCache (which runs before the object is shared).
 //
 // Address-of is only allowed as: `&c.usage`, `&x.used` (arguments of list functions),
 // `&c.hit|miss|size` (first argument of a sync/atomic function), `&it` in `c.items[k] = &it`
-// (it a local variable of struct type item: publication).  `c.items` is only allowed as
-// `c.items[k]`, `len(c.items)`, `delete(c.items, k)`, `clear(c.items)`, `range c.items` and
-// as the left-hand side of an assignment, so no alias of the map, of the list or of a
-// counter can be created inside the subset.
+// or as a *item argument of an inlined helper (it a local variable of struct type item),
+// and `p := &item{…}` (p becomes THE variable holding the fresh item: it may be used as
+// `p.f`, `&p.used` (list-function argument: publication), `c.items[k] = p` (publication),
+// `p == x`, and as receiver/argument of an inlined helper; any other use — copy, re-assignment,
+// return, argument of anything else — is an error, so no alias of the fresh item exists).
+// `c.items` is only allowed as `c.items[k]`, `len(c.items)`, `delete(c.items, k)`,
+// `clear(c.items)`, `range c.items` and as the left-hand side of an assignment, so no alias of
+// the map, of the list or of a counter can be created inside the subset.
 
 type clKind int
 
@@ -53,13 +72,15 @@ const (
 	clRet
 	clIte
 	clLoop
+	clCall
 )
 
 type clStmt struct {
 	kind      clKind
 	acc, loc  string // for clAcc
 	cond      []clStmt
-	thn, els  []clStmt // loop: thn = body
+	thn, els  []clStmt // loop: thn = body; call: thn = body of the callee
+	name      string   // call: name of the callee
 	pos       token.Pos
 	src       string
 	synthetic string // note for statements not written at this position (deferred unlock)
@@ -76,8 +97,12 @@ type clTr struct {
 	listItemT *types.Named
 	listFns   map[*types.Func]bool // list function -> writes links
 	structPtr *types.Func
-	recv      *types.Var
-	deferred  ast.Node // the active top-level `defer c.lock.Unlock()`, if any
+	decls     map[*types.Func]*ast.FuncDecl // every function/method declared in the package (non-test, non-verif files)
+	cacheVars map[*types.Var]bool           // variables that denote THE shared cache: the receiver of the entry point, receivers / *cache parameters of the active inlined callees
+	fresh     map[*types.Var]bool           // pointer variables that denote the fresh (not yet published) item of the call
+	stack     []*types.Func                 // entry point + active inlined callees (recursion check, diagnostics)
+	reached   map[*types.Func]bool          // everything translated: entry points and inlined callees
+	deferred  []clStmt                      // the active top-level `defer c.lock.Unlock()` / `defer c.lock.Lock()` calls of the function being translated, in the order of the defer statements
 }
 
 func (t *clTr) text(n ast.Node) string {
@@ -153,11 +178,11 @@ func (t *clTr) objOf(id *ast.Ident) types.Object {
 	return t.info.Defs[id]
 }
 
-// isLocalVar: a variable declared inside the current function (parameter, result or local),
-// not the receiver, not a field, not package level.
+// isLocalVar: a variable declared inside a function (parameter, result or local), not a
+// variable denoting the shared cache, not a field, not package level.
 func (t *clTr) isLocalVar(o types.Object) bool {
 	v, ok := o.(*types.Var)
-	if !ok || v.IsField() || v == t.recv {
+	if !ok || v.IsField() || t.cacheVars[v] {
 		return false
 	}
 	return v.Parent() != nil && v.Parent() != t.pkg.Scope() && v.Parent() != types.Universe
@@ -181,11 +206,47 @@ func (t *clTr) cacheField(e ast.Expr) (string, bool) {
 	if len(sel.Index()) != 1 {
 		t.fail(se, "promoted field of cache is outside the subset")
 	}
-	id, isID := clUnparen(se.X).(*ast.Ident)
-	if !isID || t.objOf(id) != t.recv {
+	if !t.isCacheVar(se.X) {
 		t.fail(se, "field of a cache object other than the method receiver")
 	}
 	return sel.Obj().Name(), true
+}
+
+// isCacheVar: e is an identifier denoting the shared cache (the receiver of the entry point
+// or the receiver / *cache parameter of an inlined callee bound to it).
+func (t *clTr) isCacheVar(e ast.Expr) bool {
+	id, ok := clUnparen(e).(*ast.Ident)
+	if !ok {
+		return false
+	}
+	v, _ := t.objOf(id).(*types.Var)
+	return v != nil && t.cacheVars[v]
+}
+
+// freshPtr: e is an identifier denoting THE pointer variable that holds the fresh item.
+func (t *clTr) freshPtr(e ast.Expr) bool {
+	id, ok := clUnparen(e).(*ast.Ident)
+	if !ok {
+		return false
+	}
+	v, _ := t.objOf(id).(*types.Var)
+	return v != nil && t.fresh[v]
+}
+
+// freshItemLit: e is `&item{…}`; returns the composite literal.
+func (t *clTr) freshItemLit(e ast.Expr) *ast.CompositeLit {
+	ad, ok := clUnparen(e).(*ast.UnaryExpr)
+	if !ok || ad.Op != token.AND {
+		return nil
+	}
+	cl, ok := clUnparen(ad.X).(*ast.CompositeLit)
+	if !ok {
+		return nil
+	}
+	if n, ptr := clNamedOf(t.typeOf(cl)); n != t.itemT || ptr {
+		return nil
+	}
+	return cl
 }
 
 // localItem: e is an identifier denoting a local variable of struct type item.
@@ -256,9 +317,16 @@ func (t *clTr) expr(e ast.Expr) []clStmt {
 		return t.expr(e.X)
 	case *ast.BinaryExpr:
 		if e.Op == token.EQL || e.Op == token.NEQ {
-			// comparing the ADDRESS of a link with a pointer touches no memory
+			// comparing the ADDRESS of a link with a pointer touches no memory; neither does
+			// comparing the pointer to the fresh item with anything (no alias is created)
 			l, lok := t.linkAddr(e.X)
 			r, rok := t.linkAddr(e.Y)
+			if !lok && t.freshPtr(e.X) {
+				l, lok = nil, true
+			}
+			if !rok && t.freshPtr(e.Y) {
+				r, rok = nil, true
+			}
 			if lok || rok {
 				if !lok {
 					l = t.expr(e.X)
@@ -285,6 +353,29 @@ func (t *clTr) expr(e ast.Expr) []clStmt {
 		typ := types.Unalias(t.typeOf(e)).Underlying()
 		_, isStruct := typ.(*types.Struct)
 		var out []clStmt
+		if n, _ := clNamedOf(t.typeOf(e)); n != nil && (n == t.cacheT || n == t.listItemT) {
+			t.fail(e, "composite literal of type %s", n.Obj().Name())
+		} else if n != nil && n == t.itemT {
+			// a new item: its fields other than `used` are written while nothing else can see it
+			st := typ.(*types.Struct)
+			for i, el := range e.Elts {
+				fname, val := "", el
+				if kv, ok := el.(*ast.KeyValueExpr); ok {
+					if id, isID := kv.Key.(*ast.Ident); isID {
+						fname = id.Name
+					}
+					val = kv.Value
+				} else if i < st.NumFields() {
+					fname = st.Field(i).Name()
+				}
+				if fname == "" || fname == "used" {
+					t.fail(el, "item literal sets the list link (or an unknown field)")
+				}
+				out = append(out, t.expr(val)...)
+				out = append(out, t.access("write", "itemKV true", el))
+			}
+			return out
+		}
 		for _, el := range e.Elts {
 			if kv, ok := el.(*ast.KeyValueExpr); ok {
 				if !isStruct {
@@ -312,8 +403,11 @@ func (t *clTr) ident(id *ast.Ident) []clStmt {
 	case *types.Nil, *types.Const:
 		return nil
 	case *types.Var:
-		if o == t.recv {
+		if t.cacheVars[o] {
 			t.fail(id, "the receiver is used as a value (the cache object escapes or is aliased)")
+		}
+		if t.fresh[o] {
+			t.fail(id, "the pointer to the fresh item is used as a value (the item would be aliased or escape; supported: p.f, &p.used as list-function argument, c.items[k] = p, p == x, receiver/argument of an inlined helper)")
 		}
 		if !t.isLocalVar(o) {
 			t.fail(id, "package-level variable")
@@ -360,17 +454,20 @@ func (t *clTr) selector(e *ast.SelectorExpr) []clStmt {
 	n, ptr := clNamedOf(sel.Recv())
 	switch {
 	case n != nil && n == t.itemT:
-		switch sel.Obj().Name() {
-		case "key", "value":
-			if ptr {
-				return append(t.expr(e.X), t.access("read", "itemKV false", e))
-			}
-			if t.localItem(e.X) {
+		if sel.Obj().Name() == "used" {
+			t.fail(e, "item field used outside &x.used as list-function argument")
+		}
+		// every other field of item is key/value-like: written only while the item is fresh
+		if ptr {
+			if t.freshPtr(e.X) {
 				return []clStmt{t.access("read", "itemKV true", e)}
 			}
-			t.fail(e, "field of an item value that is not a local variable")
+			return append(t.expr(e.X), t.access("read", "itemKV false", e))
 		}
-		t.fail(e, "item field %s outside &x.used as list-function argument", sel.Obj().Name())
+		if t.localItem(e.X) {
+			return []clStmt{t.access("read", "itemKV true", e)}
+		}
+		t.fail(e, "field of an item value that is not a local variable")
 	case n != nil && n == t.listItemT:
 		t.fail(e, "direct access to a listItem link (only the list functions may touch links)")
 	case n != nil && n == t.cacheT:
@@ -406,6 +503,9 @@ func (t *clTr) linkAddr(e ast.Expr) ([]clStmt, bool) {
 		return nil, false
 	}
 	if ptr {
+		if t.freshPtr(se.X) {
+			return nil, true
+		}
 		return t.expr(se.X), true
 	}
 	return nil, t.localItem(se.X)
@@ -439,6 +539,9 @@ func (t *clTr) listArg(a ast.Expr) ([]clStmt, bool) {
 			break
 		}
 		if ptr {
+			if t.freshPtr(se.X) {
+				return nil, true
+			}
 			return t.expr(se.X), false
 		}
 		if t.localItem(se.X) {
@@ -452,13 +555,12 @@ func (t *clTr) listArg(a ast.Expr) ([]clStmt, bool) {
 			}
 		}
 	case *ast.CallExpr:
-		if fn := t.calleeFunc(x); fn != nil {
-			if _, ok := t.listFns[fn]; ok {
-				return t.call(x), false
-			}
+		// a list function, or an inlined helper returning a *listItem
+		if n, ptr := clNamedOf(t.typeOf(x)); n == t.listItemT && ptr {
+			return t.call(x), false
 		}
 	}
-	t.fail(a, "list-function argument outside the supported forms (&c.usage, &x.used, a local *listItem, listFirst/listLast(…))")
+	t.fail(a, "list-function argument outside the supported forms (&c.usage, &x.used, a local *listItem, a call returning *listItem)")
 	return nil, false
 }
 
@@ -555,7 +657,13 @@ func (t *clTr) call(c *ast.CallExpr) []clStmt {
 			}
 			return append(t.exprs(c.Args[1:]), t.access("atomic", f, c))
 		}
-		t.fail(c, "call of function %s, which is not in the allow-list (list functions, structPtr, sync/atomic, len/cap/make/delete/clear/min/max, conversions, unsafe.Offsetof/Sizeof)", fn.FullName())
+		if fd := t.decls[fn]; fd != nil && fd.Recv == nil {
+			if fn.Exported() || fn.Name() == "newCache" {
+				t.fail(c, "call of the package-level function %s (only unexported helpers are inlined)", fn.Name())
+			}
+			return t.inline(fn, nil, c)
+		}
+		t.fail(c, "call of function %s, which is not in the allow-list (list functions, structPtr, sync/atomic, len/cap/make/delete/clear/min/max, conversions, unsafe.Offsetof/Sizeof, helpers declared in package cache)", fn.FullName())
 	}
 	if se, ok := fun.(*ast.SelectorExpr); ok {
 		sel := t.info.Selections[se]
@@ -572,10 +680,21 @@ func (t *clTr) call(c *ast.CallExpr) []clStmt {
 				}
 				t.fail(c, "method of c.lock other than Lock/Unlock")
 			}
-			if id, isID := clUnparen(se.X).(*ast.Ident); isID && t.objOf(id) == t.recv {
-				t.fail(c, "call of another method of the cache (not inlined by this translator)")
+			m, _ := sel.Obj().(*types.Func)
+			if f, isF := t.cacheField(se.X); isF && (f == "hit" || f == "miss") && m != nil && m.Pkg() != nil && m.Pkg().Path() == "sync/atomic" {
+				// c.hit.Add(1) / .Load() / .Store(0) / … on an atomic.Int32 counter
+				return append(t.exprs(c.Args), t.access("atomic", f, c))
 			}
-			t.fail(c, "method call")
+			if m != nil && t.decls[m] != nil {
+				rn, _ := clNamedOf(m.Type().(*types.Signature).Recv().Type())
+				if rn == t.cacheT || rn == t.itemT {
+					if len(sel.Index()) != 1 {
+						t.fail(c, "promoted method")
+					}
+					return t.inline(m, se.X, c)
+				}
+			}
+			t.fail(c, "method call (only c.lock.Lock/Unlock, the sync/atomic methods of c.hit / c.miss, and methods of cache / item declared in package cache are supported)")
 		}
 		if sel != nil && sel.Kind() == types.FieldVal && sel.Obj().Name() == "OnDelete" {
 			if f, isF := t.cacheField(se.X); isF && f == "conf" {
@@ -609,6 +728,9 @@ func (t *clTr) lhs(l ast.Expr, rmw bool, rhs ast.Expr) (pre, post []clStmt) {
 		if o == nil || !t.isLocalVar(o) {
 			t.fail(l, "assignment to something that is not a local variable")
 		}
+		if v, isV := o.(*types.Var); isV && t.fresh[v] {
+			t.fail(l, "assignment to the variable that holds the fresh item (it would then denote another item)")
+		}
 		if n, ptr := clNamedOf(o.Type()); !ptr && n != nil && (n == t.itemT || n == t.cacheT || n == t.listItemT) {
 			t.fail(l, "assignment of a whole %s value", n.Obj().Name())
 		}
@@ -631,9 +753,11 @@ func (t *clTr) lhs(l ast.Expr, rmw bool, rhs ast.Expr) (pre, post []clStmt) {
 		n, ptr := clNamedOf(sel.Recv())
 		switch {
 		case n != nil && n == t.itemT:
-			switch sel.Obj().Name() {
-			case "key", "value":
+			if sel.Obj().Name() != "used" {
 				if ptr {
+					if t.freshPtr(x.X) {
+						return pre, store("itemKV true")
+					}
 					pre = append(pre, t.expr(x.X)...)
 					return pre, store("itemKV false")
 				}
@@ -655,7 +779,7 @@ func (t *clTr) lhs(l ast.Expr, rmw bool, rhs ast.Expr) (pre, post []clStmt) {
 				t.fail(l, "index of cache field %s", f)
 			}
 			pre = append(pre, t.expr(x.Index)...)
-			if ad, isAd := clUnparen(rhs).(*ast.UnaryExpr); rhs != nil && isAd && ad.Op == token.AND && t.localItem(ad.X) {
+			if rhs != nil && t.freshRef(rhs) {
 				post = append(post, t.prim(clPublish, rhs))
 			}
 			return pre, append(post, store("items")...)
@@ -672,9 +796,21 @@ func (t *clTr) lhs(l ast.Expr, rmw bool, rhs ast.Expr) (pre, post []clStmt) {
 	return nil, nil
 }
 
+// freshRef: e denotes the fresh item by reference: `&it` (it a local variable of struct type
+// item) or the pointer variable that holds the fresh item.
+func (t *clTr) freshRef(e ast.Expr) bool {
+	if rhs := clUnparen(e); rhs != nil {
+		if ad, isAd := rhs.(*ast.UnaryExpr); isAd && ad.Op == token.AND && t.localItem(ad.X) {
+			return true
+		}
+	}
+	return e != nil && t.freshPtr(e)
+}
+
 func (t *clTr) assign(s *ast.AssignStmt) []clStmt {
 	if s.Tok == token.DEFINE {
-		for _, l := range s.Lhs {
+		var out []clStmt
+		for i, l := range s.Lhs {
 			id, ok := l.(*ast.Ident)
 			if !ok {
 				t.fail(l, "non-identifier on the left of :=")
@@ -683,8 +819,25 @@ func (t *clTr) assign(s *ast.AssignStmt) []clStmt {
 				// re-assignment of an existing variable inside :=
 				t.lhs(l, false, nil)
 			}
+			if len(s.Lhs) != len(s.Rhs) {
+				continue
+			}
+			// `p := &item{…}`: p becomes the variable that holds the fresh item
+			if cl := t.freshItemLit(s.Rhs[i]); cl != nil {
+				v, _ := t.info.Defs[id].(*types.Var)
+				if v == nil {
+					t.fail(s, "&item{…} assigned to something that is not a new variable")
+				}
+				t.fresh[v] = true
+				out = append(out, t.expr(cl)...)
+			} else {
+				out = append(out, t.expr(s.Rhs[i])...)
+			}
 		}
-		return t.exprs(s.Rhs)
+		if len(s.Lhs) != len(s.Rhs) {
+			return t.exprs(s.Rhs)
+		}
+		return out
 	}
 	rmw := s.Tok != token.ASSIGN
 	var pre, mid, post []clStmt
@@ -698,13 +851,11 @@ func (t *clTr) assign(s *ast.AssignStmt) []clStmt {
 		post = append(post, q...)
 	}
 	for i, r := range s.Rhs {
-		// `c.items[k] = &it`: publication, handled by lhs
+		// `c.items[k] = &it` / `c.items[k] = p`: publication, handled by lhs
 		if len(s.Lhs) == len(s.Rhs) && s.Tok == token.ASSIGN {
 			if ix, ok := clUnparen(s.Lhs[i]).(*ast.IndexExpr); ok {
-				if f, isF := t.cacheField(ix.X); isF && f == "items" {
-					if ad, isAd := clUnparen(r).(*ast.UnaryExpr); isAd && ad.Op == token.AND && t.localItem(ad.X) {
-						continue
-					}
+				if f, isF := t.cacheField(ix.X); isF && f == "items" && t.freshRef(r) {
+					continue
 				}
 			}
 		}
@@ -714,23 +865,149 @@ func (t *clTr) assign(s *ast.AssignStmt) []clStmt {
 }
 
 func (t *clTr) block(b *ast.BlockStmt, top bool) []clStmt {
-	var out []clStmt
 	if b == nil {
 		return nil
 	}
-	for _, s := range b.List {
+	return t.stmts(b.List, top, false)
+}
+
+// clHasContinue: the statement contains a `continue` that belongs to the enclosing loop.
+func clHasContinue(s ast.Stmt) bool {
+	found := false
+	ast.Inspect(s, func(n ast.Node) bool {
+		switch x := n.(type) {
+		case *ast.ForStmt, *ast.RangeStmt, *ast.FuncLit:
+			return false
+		case *ast.BranchStmt:
+			if x.Tok == token.CONTINUE {
+				found = true
+			}
+		}
+		return !found
+	})
+	return found
+}
+
+// stmts translates a statement list.  tail = the list is in tail position of the body of the
+// innermost loop: control reaching its end goes to the end of the loop body (then the post
+// statement and the condition).  Only there `continue` is supported, by the structured
+// rewriting
+//     if c { A; continue }; R      ==>   if c { A } else { R }
+//     if c { A } else { B; continue }; R   ==>   if c { A; R } else { B }
+// (R = the rest of the list; a trailing `continue` of the list itself is dropped).
+func (t *clTr) stmts(list []ast.Stmt, top, tail bool) []clStmt {
+	var out []clStmt
+	for i, s := range list {
+		rest := list[i+1:]
+		if br, ok := s.(*ast.BranchStmt); ok && br.Tok == token.CONTINUE {
+			if br.Label != nil || !tail {
+				t.fail(s, "continue outside the tail position of the innermost loop body (or with a label)")
+			}
+			if len(rest) > 0 {
+				t.fail(rest[0], "unreachable statement after continue")
+			}
+			return out
+		}
+		if is, ok := s.(*ast.IfStmt); ok && clHasContinue(s) {
+			if !tail {
+				t.fail(s, "continue outside the tail position of the innermost loop body")
+			}
+			out = append(out, t.stmt(is.Init, false)...)
+			ite := clStmt{kind: clIte, pos: is.Pos(), src: "if " + t.text(is.Cond) + "  [rest of the loop body moved into the branches: continue]"}
+			ite.cond = t.cond(is.Cond)
+			branch := func(b []ast.Stmt) []clStmt {
+				if n := len(b); n > 0 {
+					if br, isBr := b[n-1].(*ast.BranchStmt); isBr && br.Tok == token.CONTINUE && br.Label == nil {
+						return t.stmts(b, false, true) // ends in continue: the rest is not reached from here
+					}
+				}
+				if clHasContinue(&ast.BlockStmt{List: b}) {
+					// a branch that may `continue`: it gets its own copy of the rest, in tail position
+					return t.stmts(append(append([]ast.Stmt{}, b...), rest...), false, true)
+				}
+				return append(t.stmts(b, false, false), t.stmts(rest, false, true)...)
+			}
+			ite.thn = branch(is.Body.List)
+			switch el := is.Else.(type) {
+			case nil:
+				ite.els = branch(nil)
+			case *ast.BlockStmt:
+				ite.els = branch(el.List)
+			case *ast.IfStmt:
+				ite.els = branch([]ast.Stmt{el})
+			default:
+				t.fail(is.Else, "else branch")
+			}
+			return append(out, ite)
+		}
 		out = append(out, t.stmt(s, top)...)
 	}
 	return out
 }
 
-func (t *clTr) deferredUnlock(at ast.Node) []clStmt {
-	if t.deferred == nil {
+// clSyncInside: the statements contain Lock / Unlock / OnDelete / publication (also inside
+// inlined callees).
+func clSyncInside(ss []clStmt) bool {
+	for _, s := range ss {
+		switch s.kind {
+		case clLock, clUnlock, clCallOnDelete, clPublish:
+			return true
+		case clIte, clLoop, clCall:
+			if clSyncInside(s.cond) || clSyncInside(s.thn) || clSyncInside(s.els) {
+				return true
+			}
+		}
+	}
+	return false
+}
+
+// unit checks one evaluation unit (the accesses of one simple statement or one condition):
+// Go fixes the order of function calls among themselves, but not the order of a call
+// relative to the other operand evaluations of the same expression.  So an inlined helper that
+// changes the lock / publication state must not share a unit with accesses outside calls.
+func (t *clTr) unit(n ast.Node, ss []clStmt) []clStmt {
+	var syncCall, topAcc bool
+	var walk func(ss []clStmt)
+	walk = func(ss []clStmt) {
+		for _, s := range ss {
+			switch s.kind {
+			case clCall:
+				if clSyncInside(s.thn) {
+					syncCall = true
+				}
+			case clIte, clLoop:
+				walk(s.cond)
+				walk(s.thn)
+				walk(s.els)
+			case clAcc:
+				topAcc = true
+			}
+		}
+	}
+	walk(ss)
+	if syncCall && topAcc {
+		t.fail(n, "a helper that locks / unlocks / publishes / calls OnDelete is called inside an expression that also touches memory outside calls: Go does not specify the evaluation order")
+	}
+	return ss
+}
+
+func (t *clTr) cond(e ast.Expr) []clStmt {
+	if e == nil {
 		return nil
 	}
-	u := t.prim(clUnlock, t.deferred)
-	u.synthetic = "deferred call run at " + t.where(at)
-	return []clStmt{u}
+	return t.unit(e, t.expr(e))
+}
+
+// deferredUnlock: the deferred calls registered so far, run in reverse order (at a return, or at
+// the end of the body).
+func (t *clTr) deferredUnlock(where string) []clStmt {
+	var out []clStmt
+	for i := len(t.deferred) - 1; i >= 0; i-- {
+		u := t.deferred[i]
+		u.synthetic = "deferred call run at " + where
+		out = append(out, u)
+	}
+	return out
 }
 
 func (t *clTr) stmt(s ast.Stmt, top bool) []clStmt {
@@ -744,9 +1021,9 @@ func (t *clTr) stmt(s ast.Stmt, top bool) []clStmt {
 		if !ok {
 			t.fail(s, "expression statement that is not a call")
 		}
-		return t.call(c)
+		return t.unit(s, t.call(c))
 	case *ast.AssignStmt:
-		return t.assign(s)
+		return t.unit(s, t.assign(s))
 	case *ast.IncDecStmt:
 		pre, post := t.lhs(s.X, true, nil)
 		return append(pre, post...)
@@ -761,17 +1038,17 @@ func (t *clTr) stmt(s ast.Stmt, top bool) []clStmt {
 				out = append(out, t.exprs(vs.Values)...)
 			}
 		}
-		return out
+		return t.unit(s, out)
 	case *ast.ReturnStmt:
-		out := t.exprs(s.Results)
-		out = append(out, t.deferredUnlock(s)...)
+		out := t.unit(s, t.exprs(s.Results))
+		out = append(out, t.deferredUnlock(t.where(s))...)
 		return append(out, t.prim(clRet, s))
 	case *ast.BlockStmt:
 		return t.block(s, false)
 	case *ast.IfStmt:
 		out := t.stmt(s.Init, false)
 		ite := clStmt{kind: clIte, pos: s.Pos(), src: "if " + t.text(s.Cond)}
-		ite.cond = t.expr(s.Cond)
+		ite.cond = t.cond(s.Cond)
 		ite.thn = t.block(s.Body, false)
 		switch el := s.Else.(type) {
 		case nil:
@@ -786,8 +1063,8 @@ func (t *clTr) stmt(s ast.Stmt, top bool) []clStmt {
 	case *ast.ForStmt:
 		out := t.stmt(s.Init, false)
 		lp := clStmt{kind: clLoop, pos: s.Pos(), src: "for " + t.text(s.Cond)}
-		lp.cond = t.expr(s.Cond)
-		lp.thn = append(t.block(s.Body, false), t.stmt(s.Post, false)...)
+		lp.cond = t.cond(s.Cond)
+		lp.thn = append(t.stmts(s.Body.List, false, true), t.stmt(s.Post, false)...)
 		return append(out, lp)
 	case *ast.RangeStmt:
 		for _, kv := range []ast.Expr{s.Key, s.Value} {
@@ -810,32 +1087,201 @@ func (t *clTr) stmt(s ast.Stmt, top bool) []clStmt {
 			}
 			lp.cond = []clStmt{t.access("read", "items", s.X)} // the map is read at every iteration step
 		} else {
-			out = t.expr(s.X)
+			out = t.cond(s.X)
 		}
-		lp.thn = t.block(s.Body, false)
+		lp.thn = t.stmts(s.Body.List, false, true)
 		return append(out, lp)
 	case *ast.DeferStmt:
 		if !top {
 			t.fail(s, "defer that is not a direct child of the method body (it would run conditionally)")
 		}
-		if t.deferred != nil {
-			t.fail(s, "second deferred call")
-		}
 		k := t.call(s.Call)
-		if len(k) != 1 || k[0].kind != clUnlock {
-			t.fail(s, "defer of anything but c.lock.Unlock()")
+		if len(k) != 1 || (k[0].kind != clUnlock && k[0].kind != clLock) {
+			t.fail(s, "defer of anything but c.lock.Unlock() / c.lock.Lock()")
 		}
-		t.deferred = s.Call
+		t.deferred = append(t.deferred, k[0])
 		return nil
 	}
 	t.fail(s, "statement kind outside the subset")
 	return nil
 }
 
+// ---------------------------------------------------------------- function bodies, inlining
+
+// funcBody translates the body of a function (entry point or inlined callee): its own
+// `defer c.lock.Unlock()` is run at each of its returns and at the end of its body.
+func (t *clTr) funcBody(fd *ast.FuncDecl) []clStmt {
+	saved := t.deferred
+	t.deferred = nil
+	defer func() { t.deferred = saved }()
+	body := t.block(fd.Body, true)
+	endsInReturn := false
+	if n := len(fd.Body.List); n > 0 {
+		_, endsInReturn = fd.Body.List[n-1].(*ast.ReturnStmt)
+	}
+	if !endsInReturn {
+		body = append(body, t.deferredUnlock("the end of the body of "+fd.Name.Name)...)
+	}
+	return body
+}
+
+func (t *clTr) chain() string {
+	var names []string
+	for _, f := range t.stack {
+		names = append(names, f.Name())
+	}
+	return strings.Join(names, " -> ")
+}
+
+// inline translates a call of a method of cache / of *item (recv = the receiver expression)
+// or of an unexported package-level function (recv = nil) declared in the package:
+// the accesses of evaluating the receiver and the arguments, in order, then a `call` node
+// with the translated body of the callee.  Bindings: the callee's receiver / a *cache
+// parameter must be given the caller's cache variable itself (then it denotes the same shared
+// object inside the callee); a *item receiver / parameter given the fresh item (`p`, `&it`)
+// denotes the fresh item inside the callee, given anything else a published item; a
+// *listItem parameter is a local *listItem of the callee (if it is given the link of the
+// fresh item, the item counts as published from the call on: the callee may link it).
+func (t *clTr) inline(fn *types.Func, recv ast.Expr, c *ast.CallExpr) []clStmt {
+	fd := t.decls[fn]
+	if fd == nil || fd.Body == nil {
+		t.fail(c, "call of %s, whose body is not available", fn.FullName())
+	}
+	for _, f := range t.stack {
+		if f == fn {
+			t.fail(c, "recursive call (%s -> %s): recursion cannot be inlined", t.chain(), fn.Name())
+		}
+	}
+	if len(t.stack) > 16 {
+		t.fail(c, "helper calls nested deeper than 16")
+	}
+	sig := fn.Type().(*types.Signature)
+	if sig.Variadic() {
+		t.fail(c, "call of the variadic helper %s", fn.Name())
+	}
+	if sig.TypeParams().Len() > 0 || sig.RecvTypeParams().Len() > 0 {
+		t.fail(c, "call of the generic helper %s", fn.Name())
+	}
+	var out []clStmt
+	var bindCache, bindFresh []*types.Var
+	bind := func(v *types.Var, arg ast.Expr, isRecv bool) {
+		n, ptr := clNamedOf(v.Type())
+		switch {
+		case n != nil && n == t.cacheT:
+			if !ptr {
+				t.fail(arg, "helper %s takes a cache by value (copies the mutex)", fn.Name())
+			}
+			if !t.isCacheVar(arg) {
+				t.fail(arg, "helper %s is given a cache other than the receiver itself", fn.Name())
+			}
+			bindCache = append(bindCache, v)
+		case n != nil && n == t.itemT:
+			if !ptr {
+				t.fail(arg, "helper %s takes an item by value (a whole item is copied)", fn.Name())
+			}
+			if t.freshRef(arg) || (isRecv && t.localItem(arg)) {
+				bindFresh = append(bindFresh, v)
+				return
+			}
+			out = append(out, t.expr(arg)...)
+		case n != nil && n == t.listItemT:
+			if !ptr {
+				t.fail(arg, "helper %s takes a listItem by value", fn.Name())
+			}
+			acc, pub := t.listArg(arg)
+			out = append(out, acc...)
+			if pub {
+				p := t.prim(clPublish, arg)
+				p.synthetic = "the link of the fresh item is handed to helper " + fn.Name()
+				out = append(out, p)
+			}
+		default:
+			out = append(out, t.expr(arg)...)
+		}
+	}
+	if rv := sig.Recv(); rv != nil {
+		if recv == nil {
+			t.fail(c, "method expression")
+		}
+		bind(rv, recv, true)
+	}
+	if sig.Params().Len() != len(c.Args) {
+		t.fail(c, "helper %s called with a multi-value argument", fn.Name())
+	}
+	for i, a := range c.Args {
+		bind(sig.Params().At(i), a, false)
+	}
+	// the frame of the callee
+	type savedB struct {
+		v    *types.Var
+		c, f bool
+	}
+	var restore []savedB
+	for _, v := range append(append([]*types.Var{}, bindCache...), bindFresh...) {
+		restore = append(restore, savedB{v, t.cacheVars[v], t.fresh[v]})
+	}
+	// parameters not bound to the cache / the fresh item must not inherit a binding of an
+	// earlier inlining of the same callee
+	clearB := func(v *types.Var) {
+		if v != nil {
+			restore = append(restore, savedB{v, t.cacheVars[v], t.fresh[v]})
+			delete(t.cacheVars, v)
+			delete(t.fresh, v)
+		}
+	}
+	clearB(sig.Recv())
+	for i := 0; i < sig.Params().Len(); i++ {
+		clearB(sig.Params().At(i))
+	}
+	for _, v := range bindCache {
+		t.cacheVars[v] = true
+	}
+	for _, v := range bindFresh {
+		t.fresh[v] = true
+	}
+	t.stack = append(t.stack, fn)
+	t.reached[fn] = true
+	body := t.funcBody(fd)
+	t.stack = t.stack[:len(t.stack)-1]
+	for i := len(restore) - 1; i >= 0; i-- {
+		r := restore[i]
+		delete(t.cacheVars, r.v)
+		delete(t.fresh, r.v)
+		if r.c {
+			t.cacheVars[r.v] = true
+		}
+		if r.f {
+			t.fresh[r.v] = true
+		}
+	}
+	name := fn.Name()
+	if rv := sig.Recv(); rv != nil {
+		if n, _ := clNamedOf(rv.Type()); n == t.itemT {
+			name = "item." + name
+		}
+	}
+	return append(out, clStmt{kind: clCall, name: name, thn: body, pos: c.Pos(), src: t.text(c)})
+}
+
 // ---------------------------------------------------------------- the list functions
 
+// tryListFn runs checkListFn and reports a failure instead of aborting the translation.
+func (t *clTr) tryListFn(fd *ast.FuncDecl) (ok, writes bool, calls []*types.Func, why string) {
+	defer func() {
+		if r := recover(); r != nil {
+			ce, isCl := r.(clErr)
+			if !isCl {
+				panic(r)
+			}
+			ok, why = false, ce.msg
+		}
+	}()
+	writes, calls = t.checkListFn(fd)
+	return true, writes, calls, ""
+}
+
 // checkListFn: the body of a list function touches only listItem links and calls only list
-// functions; returns whether it (directly) assigns.
+// functions; returns whether it (directly) assigns to a link.
 func (t *clTr) checkListFn(fd *ast.FuncDecl) (writes bool, calls []*types.Func) {
 	ast.Inspect(fd.Body, func(n ast.Node) bool {
 		switch x := n.(type) {
@@ -853,10 +1299,20 @@ func (t *clTr) checkListFn(fd *ast.FuncDecl) (writes bool, calls []*types.Func) 
 				t.fail(x, "list function %s: call of something that is not a function", fd.Name.Name)
 			}
 			calls = append(calls, fn)
-		case *ast.AssignStmt, *ast.IncDecStmt:
-			writes = true
+		case *ast.AssignStmt:
+			for _, l := range x.Lhs {
+				// an assignment to a plain identifier stores into a local variable
+				// (package-level variables are rejected below), not into a link
+				if _, isID := clUnparen(l).(*ast.Ident); !isID {
+					writes = true
+				}
+			}
+		case *ast.IncDecStmt:
+			if _, isID := clUnparen(x.X).(*ast.Ident); !isID {
+				writes = true
+			}
 		case *ast.Ident:
-			if v, ok := t.info.Uses[x].(*types.Var); ok && !v.IsField() && v.Parent() == t.pkg.Scope() {
+			if v, ok := t.objOf(x).(*types.Var); ok && !v.IsField() && v.Parent() == t.pkg.Scope() {
 				t.fail(x, "list function %s uses a package-level variable", fd.Name.Name)
 			}
 		case *ast.GoStmt, *ast.DeferStmt, *ast.FuncLit, *ast.StarExpr:
@@ -903,7 +1359,8 @@ func genCacheLockIR(repo string) (src string, err error) {
 	if err != nil {
 		return "", err
 	}
-	t := &clTr{fset: fset, info: info, pkg: pkg, listFns: map[*types.Func]bool{}}
+	t := &clTr{fset: fset, info: info, pkg: pkg, listFns: map[*types.Func]bool{}, cacheVars: map[*types.Var]bool{},
+		fresh: map[*types.Var]bool{}, reached: map[*types.Func]bool{}}
 	defer func() {
 		if r := recover(); r != nil {
 			ce, ok := r.(clErr)
@@ -930,7 +1387,15 @@ func genCacheLockIR(repo string) (src string, err error) {
 	t.cacheT, t.itemT, t.listItemT = named("cache"), named("item"), named("listItem")
 
 	// the field table of cache and item must be the one the location table was written for
-	wantFields := func(n *types.Named, want map[string]string) {
+	typeStr := func(ty types.Type) string {
+		return types.TypeString(ty, func(p *types.Package) string {
+			if p == pkg {
+				return ""
+			}
+			return p.Path()
+		})
+	}
+	wantFields := func(n *types.Named, want map[string][]string) {
 		st := n.Underlying().(*types.Struct)
 		if st.NumFields() != len(want) {
 			panic(clErr{fmt.Sprintf("struct %s has %d fields, the location table knows %d", n.Obj().Name(), st.NumFields(), len(want))})
@@ -941,27 +1406,71 @@ func genCacheLockIR(repo string) (src string, err error) {
 			if !ok || f.Embedded() {
 				panic(clErr{fmt.Sprintf("struct %s: field %s is not in the location table", n.Obj().Name(), f.Name())})
 			}
-			if got := types.TypeString(f.Type(), func(p *types.Package) string {
-				if p == pkg {
-					return ""
-				}
-				return p.Path()
-			}); got != w {
-				panic(clErr{fmt.Sprintf("struct %s: field %s has type %s, the location table expects %s", n.Obj().Name(), f.Name(), got, w)})
+			got, found := typeStr(f.Type()), false
+			for _, x := range w {
+				found = found || x == got
+			}
+			if !found {
+				panic(clErr{fmt.Sprintf("struct %s: field %s has type %s, the location table expects %s", n.Obj().Name(), f.Name(), got, strings.Join(w, " or "))})
 			}
 		}
 	}
-	wantFields(t.cacheT, map[string]string{"items": "map[string]*item", "usage": "listItem", "lock": "sync.Mutex", "size": "uint",
-		"conf": "Config", "miss": "int32", "hit": "int32"})
-	wantFields(t.itemT, map[string]string{"key": "[]byte", "value": "[]byte", "used": "listItem"})
-	wantFields(t.listItemT, map[string]string{"next": "*listItem", "prev": "*listItem"})
+	// hit/miss: plain int32 touched through sync/atomic functions, or atomic.Int32 touched
+	// through its methods; both are `acc atomic`
+	wantFields(t.cacheT, map[string][]string{"items": {"map[string]*item"}, "usage": {"listItem"}, "lock": {"sync.Mutex"}, "size": {"uint"},
+		"conf": {"Config"}, "miss": {"int32", "sync/atomic.Int32"}, "hit": {"int32", "sync/atomic.Int32"}})
+	wantFields(t.listItemT, map[string][]string{"next": {"*listItem"}, "prev": {"*listItem"}})
+	// item: the link `used listItem`, the slices key and value, and any further field of a
+	// plain value type (e.g. a cached `size uint`): every field but `used` is location itemKV
+	// (written only while the item is fresh, read anywhere)
+	{
+		st := t.itemT.Underlying().(*types.Struct)
+		seen := map[string]bool{}
+		for i := 0; i < st.NumFields(); i++ {
+			f := st.Field(i)
+			if f.Embedded() {
+				panic(clErr{"struct item: embedded field " + f.Name()})
+			}
+			seen[f.Name()] = true
+			got := typeStr(f.Type())
+			switch f.Name() {
+			case "used":
+				if got != "listItem" {
+					panic(clErr{"struct item: field used has type " + got + ", the location table expects listItem"})
+				}
+			case "key", "value":
+				if got != "[]byte" {
+					panic(clErr{"struct item: field " + f.Name() + " has type " + got + ", the location table expects []byte"})
+				}
+			default:
+				ok := false
+				switch u := types.Unalias(f.Type()).Underlying().(type) {
+				case *types.Basic:
+					ok = u.Kind() != types.UnsafePointer
+				case *types.Slice:
+					_, ok = types.Unalias(u.Elem()).Underlying().(*types.Basic)
+				}
+				if !ok {
+					panic(clErr{"struct item: field " + f.Name() + " has type " + got + "; only fields of a basic type or a slice of a basic type are classified as key/value-like"})
+				}
+			}
+		}
+		for _, w := range []string{"key", "value", "used"} {
+			if !seen[w] {
+				panic(clErr{"struct item has no field " + w})
+			}
+		}
+	}
 
 	// collect declarations
 	type decl struct {
 		fd   *ast.FuncDecl
+		fo   *types.Func
 		file string
 	}
-	var methods []decl
+	var entries []decl
+	var all []decl
+	t.decls = map[*types.Func]*ast.FuncDecl{}
 	funcs := map[string]*ast.FuncDecl{}
 	for _, f := range files {
 		for _, d := range f.Decls {
@@ -969,13 +1478,16 @@ func genCacheLockIR(repo string) (src string, err error) {
 			if !ok || fd.Body == nil {
 				continue
 			}
+			fo, _ := info.Defs[fd.Name].(*types.Func)
+			if fo == nil {
+				panic(clErr{"function " + fd.Name.Name + " has no type information"})
+			}
+			t.decls[fo] = fd
+			dc := decl{fd, fo, filepath.Base(fset.Position(fd.Pos()).Filename)}
+			all = append(all, dc)
 			if fd.Recv == nil {
 				funcs[fd.Name.Name] = fd
 				continue
-			}
-			fo, _ := info.Defs[fd.Name].(*types.Func)
-			if fo == nil {
-				panic(clErr{"method " + fd.Name.Name + " has no type information"})
 			}
 			rv := fo.Type().(*types.Signature).Recv()
 			n, ptr := clNamedOf(rv.Type())
@@ -983,31 +1495,83 @@ func genCacheLockIR(repo string) (src string, err error) {
 				if !ptr {
 					t.fail(fd, "method of cache with a value receiver (copies the mutex)")
 				}
-				methods = append(methods, decl{fd, filepath.Base(fset.Position(fd.Pos()).Filename)})
-			} else if n == t.itemT || n == t.listItemT {
-				t.fail(fd, "method on %s (the translator knows only the list functions)", n.Obj().Name())
+				if fo.Exported() {
+					entries = append(entries, dc)
+				}
+			} else if n == t.itemT {
+				if !ptr {
+					t.fail(fd, "method of item with a value receiver (copies a whole item)")
+				}
+			} else if n == t.listItemT {
+				t.fail(fd, "method on listItem (the translator knows only list FUNCTIONS)")
 			}
 		}
 	}
+	sort.Slice(all, func(i, j int) bool { return all[i].fd.Pos() < all[j].fd.Pos() })
+	// package-level variable initialisers (e.g. a function literal stored in a variable) must
+	// not touch the cache or an item: they could not be analysed at a call site
+	for _, f := range files {
+		for _, d := range f.Decls {
+			gd, ok := d.(*ast.GenDecl)
+			if !ok || gd.Tok != token.VAR {
+				continue
+			}
+			ast.Inspect(gd, func(n ast.Node) bool {
+				if se, isSel := n.(*ast.SelectorExpr); isSel {
+					if sel := info.Selections[se]; sel != nil {
+						if nm, _ := clNamedOf(sel.Recv()); nm == t.cacheT || nm == t.itemT {
+							t.fail(se, "package-level variable initialiser touches the cache or an item")
+						}
+					}
+				}
+				return true
+			})
+		}
+	}
 
-	// list functions: names fixed, bodies checked; read/write classification computed
-	listNames := []string{"listInit", "listFirst", "listLast", "listLink2", "listUnlink", "listAppend"}
+	// list functions: every package-level function whose name starts with `list` or whose
+	// parameters are all *listItem, and whose body touches only listItem links and calls only
+	// list functions (checked here, on every run); read/write classification computed.  A
+	// candidate that does not pass the check is an ordinary helper (inlined at its call sites,
+	// where a direct access to a link is an error).
 	direct := map[*types.Func]bool{}
 	callees := map[*types.Func][]*types.Func{}
-	for _, n := range listNames {
-		fd := funcs[n]
-		if fd == nil {
-			panic(clErr{"list function " + n + " not found"})
+	notList := map[string]string{}
+	for _, dc := range all {
+		fd, fo := dc.fd, dc.fo
+		if fd.Recv != nil || fd.Name.Name == "newCache" {
+			continue
 		}
-		fo := info.Defs[fd.Name].(*types.Func)
-		w, cs := t.checkListFn(fd)
+		sig := fo.Type().(*types.Signature)
+		allLinks := sig.Params().Len() > 0
+		for i := 0; i < sig.Params().Len(); i++ {
+			n, ptr := clNamedOf(sig.Params().At(i).Type())
+			allLinks = allLinks && n == t.listItemT && ptr
+		}
+		if !strings.HasPrefix(fd.Name.Name, "list") && !allLinks {
+			continue
+		}
+		ok, w, cs, why := t.tryListFn(fd)
+		if !ok {
+			notList[fd.Name.Name] = why
+			continue
+		}
 		direct[fo], callees[fo] = w, cs
 		t.listFns[fo] = false
 	}
-	for fo, cs := range callees {
-		for _, c := range cs {
-			if _, ok := t.listFns[c]; !ok {
-				panic(clErr{fmt.Sprintf("list function %s calls %s, which is not a list function", fo.Name(), c.FullName())})
+	for changed := true; changed; {
+		changed = false
+		for fo, cs := range callees {
+			if _, still := t.listFns[fo]; !still {
+				continue
+			}
+			for _, c := range cs {
+				if _, ok := t.listFns[c]; !ok {
+					notList[fo.Name()] = "it calls " + c.FullName() + ", which is not a list function"
+					delete(t.listFns, fo)
+					changed = true
+					break
+				}
 			}
 		}
 	}
@@ -1025,6 +1589,7 @@ func genCacheLockIR(repo string) (src string, err error) {
 	}
 	if fd := funcs["structPtr"]; fd != nil {
 		t.structPtr = info.Defs[fd.Name].(*types.Func)
+		delete(t.listFns, t.structPtr)
 		ast.Inspect(fd.Body, func(n ast.Node) bool {
 			switch x := n.(type) {
 			case *ast.SelectorExpr:
@@ -1042,80 +1607,155 @@ func genCacheLockIR(repo string) (src string, err error) {
 		})
 	}
 
-	// no function other than the constructor and the methods of cache may touch a cache field
-	for name, fd := range funcs {
-		if name == "newCache" {
-			continue
-		}
-		ast.Inspect(fd.Body, func(n ast.Node) bool {
-			if se, ok := n.(*ast.SelectorExpr); ok {
-				if sel := info.Selections[se]; sel != nil && sel.Kind() == types.FieldVal {
-					if nm, _ := clNamedOf(sel.Recv()); nm == t.cacheT {
-						t.fail(se, "function %s touches a cache field outside the methods of cache and newCache", name)
-					}
-				}
-			}
-			return true
-		})
-	}
-
-	sort.Slice(methods, func(i, j int) bool { return methods[i].fd.Pos() < methods[j].fd.Pos() })
-	var b strings.Builder
-	b.WriteString("import GolibsVerif.Model.C10IR\n\n")
-	b.WriteString("/-! Lock-discipline IR of every method of `cache` (cache/*.go), regenerated by gen/cachelock.go.\n")
-	b.WriteString("List functions (bodies checked to touch only listItem links): ")
-	for i, n := range listNames {
-		if i > 0 {
-			b.WriteString(", ")
-		}
-		rw := "read"
-		if t.listFns[info.Defs[funcs[n].Name].(*types.Func)] {
-			rw = "write"
-		}
-		fmt.Fprintf(&b, "%s=%s", n, rw)
-	}
-	b.WriteString(".\nThe trailing comments give the source position and text each statement was translated from. -/\n\n")
-	b.WriteString("namespace GolibsVerif.Gen.CacheLockIR\nopen GolibsVerif.C10.Lock\n\n")
+	sort.Slice(entries, func(i, j int) bool { return entries[i].fd.Pos() < entries[j].fd.Pos() })
+	var body strings.Builder
 	var leanNames []string
 	seen := map[string]bool{}
-	for _, m := range methods {
-		fd := m.fd
+	for _, m := range entries {
+		fd, fo := m.fd, m.fo
 		if seen[fd.Name.Name] {
 			t.fail(fd, "method declared twice")
 		}
 		seen[fd.Name.Name] = true
-		fo := info.Defs[fd.Name].(*types.Func)
-		t.recv = fo.Type().(*types.Signature).Recv()
-		if t.recv.Name() == "" || t.recv.Name() == "_" {
-			t.recv = nil
+		t.cacheVars = map[*types.Var]bool{}
+		t.fresh = map[*types.Var]bool{}
+		if rv := fo.Type().(*types.Signature).Recv(); rv.Name() != "" && rv.Name() != "_" {
+			t.cacheVars[rv] = true
 		}
-		t.deferred = nil
-		body := t.block(fd.Body, true)
-		endsInReturn := false
-		if n := len(fd.Body.List); n > 0 {
-			_, endsInReturn = fd.Body.List[n-1].(*ast.ReturnStmt)
-		}
-		if t.deferred != nil && !endsInReturn {
-			u := t.prim(clUnlock, t.deferred)
-			u.synthetic = "deferred call run at the end of the body"
-			body = append(body, u)
-		}
+		t.stack = []*types.Func{fo}
+		t.reached[fo] = true
+		stmts := t.funcBody(fd)
 		ln := "m" + fd.Name.Name
 		leanNames = append(leanNames, ln)
-		fmt.Fprintf(&b, "/-- `func (%s *cache) %s` — %s:%d -/\n", fo.Type().(*types.Signature).Recv().Name(), fd.Name.Name, m.file, fset.Position(fd.Pos()).Line)
-		fmt.Fprintf(&b, "def %s : Method := { name := %s, body := [\n", ln, c20LeanStrLit(fd.Name.Name))
-		t.emit(&b, body, 1)
-		b.WriteString("] }\n\n")
+		fmt.Fprintf(&body, "/-- `func (%s *cache) %s` — %s:%d -/\n", fo.Type().(*types.Signature).Recv().Name(), fd.Name.Name, m.file, fset.Position(fd.Pos()).Line)
+		fmt.Fprintf(&body, "def %s : Method := { name := %s, body := [\n", ln, c20LeanStrLit(fd.Name.Name))
+		t.emit(&body, stmts, 1)
+		body.WriteString("] }\n\n")
 	}
+	t.cacheVars, t.fresh, t.stack = map[*types.Var]bool{}, map[*types.Var]bool{}, nil
 	for _, want := range []string{"Clear", "Set", "Get", "Del", "Stats"} {
 		if !seen[want] {
 			panic(clErr{"method cache." + want + " not found"})
 		}
 	}
-	fmt.Fprintf(&b, "/-- all methods of `cache`, in source order -/\ndef methods : List Method := [%s]\n\n", strings.Join(leanNames, ", "))
-	b.WriteString("/-- the critical-section decomposition of every method -/\ndef sections : List MethodSections := methods.map sectionsOf\n\n")
-	b.WriteString("-- diagnostics only: name the offending method and event when `lock_discipline` is going to fail\n")
-	b.WriteString("#eval (report methods).forM (m := IO) IO.println\n\n")
+
+	// Every function that touches a field of cache or of item must have been translated:
+	// as an entry point, or inlined at a call site reachable from one.  Exceptions: newCache
+	// and what only newCache reaches (the object is not shared yet), and the list functions /
+	// structPtr (checked above to touch nothing but links).
+	fromNew := map[*types.Func]bool{}
+	var mark func(fd *ast.FuncDecl)
+	mark = func(fd *ast.FuncDecl) {
+		ast.Inspect(fd.Body, func(n ast.Node) bool {
+			var id *ast.Ident
+			switch x := n.(type) {
+			case *ast.Ident:
+				id = x
+			case *ast.SelectorExpr:
+				id = x.Sel
+			}
+			if id != nil {
+				if fn, ok := info.Uses[id].(*types.Func); ok && t.decls[fn] != nil && !fromNew[fn] {
+					fromNew[fn] = true
+					mark(t.decls[fn])
+				}
+			}
+			return true
+		})
+	}
+	if fd := funcs["newCache"]; fd != nil {
+		mark(fd)
+	}
+	var inlined, preShare []string
+	for _, dc := range all {
+		fd, fo := dc.fd, dc.fo
+		_, isList := t.listFns[fo]
+		if isList || fo == t.structPtr || (fd.Recv == nil && fd.Name.Name == "newCache") {
+			continue
+		}
+		if t.reached[fo] {
+			if !(fd.Recv != nil && fo.Exported() && seen[fd.Name.Name]) {
+				inlined = append(inlined, fd.Name.Name)
+			}
+			continue
+		}
+		var touched ast.Node
+		offsetof := map[ast.Node]bool{}
+		ast.Inspect(fd.Body, func(n ast.Node) bool {
+			if ce, ok := n.(*ast.CallExpr); ok {
+				if se, isSel := ce.Fun.(*ast.SelectorExpr); isSel && info.Selections[se] == nil {
+					if bi, isB := info.Uses[se.Sel].(*types.Builtin); isB && (bi.Name() == "Offsetof" || bi.Name() == "Sizeof" || bi.Name() == "Alignof") {
+						offsetof[ce] = true
+						return false // operand not evaluated
+					}
+				}
+			}
+			if se, ok := n.(*ast.SelectorExpr); ok && touched == nil {
+				if sel := info.Selections[se]; sel != nil && sel.Kind() == types.FieldVal {
+					if nm, _ := clNamedOf(sel.Recv()); nm == t.cacheT || nm == t.itemT {
+						touched = se
+					}
+				}
+			}
+			return true
+		})
+		isMethod := false
+		if fd.Recv != nil {
+			n, _ := clNamedOf(fo.Type().(*types.Signature).Recv().Type())
+			isMethod = n == t.cacheT || n == t.itemT
+		}
+		if touched == nil && !isMethod {
+			continue
+		}
+		if fromNew[fo] {
+			preShare = append(preShare, fd.Name.Name)
+			continue
+		}
+		at := ast.Node(fd)
+		if touched != nil {
+			at = touched
+		}
+		t.fail(at, "%s touches the cache or an item but is not reachable from any exported method of cache (nor only from newCache): it cannot be analysed at a call site; remove it or call it", fd.Name.Name)
+	}
+
+	var b strings.Builder
+	b.WriteString("import GolibsVerif.Model.C10IR\n\n")
+	b.WriteString("/-! Lock-discipline IR of every exported method of `cache` (cache/*.go), regenerated by gen/cachelock.go.\n")
+	b.WriteString("List functions (bodies checked to touch only listItem links): ")
+	var lnames []string
+	for fo, w := range t.listFns {
+		rw := "read"
+		if w {
+			rw = "write"
+		}
+		lnames = append(lnames, fo.Name()+"="+rw)
+	}
+	sort.Strings(lnames)
+	b.WriteString(strings.Join(lnames, ", "))
+	if len(inlined) == 0 {
+		inlined = []string{"none"}
+	}
+	b.WriteString(".\nHelpers inlined at their call sites (`.call`): " + strings.Join(inlined, ", "))
+	if len(preShare) > 0 {
+		b.WriteString(".\nHelpers reachable only from newCache (run before the object is shared; not analysed): " + strings.Join(preShare, ", "))
+	}
+	var nl []string
+	for n, why := range notList {
+		nl = append(nl, n+" ("+strings.ReplaceAll(strings.ReplaceAll(why, "-/", "- /"), "/-", "/ -")+")")
+	}
+	sort.Strings(nl)
+	if len(nl) > 0 {
+		b.WriteString(".\nCandidates that are NOT list functions (ordinary helpers): " + strings.Join(nl, "; "))
+	}
+	b.WriteString(".\nThe trailing comments give the source position and text each statement was translated from. -/\n\n")
+	b.WriteString("namespace GolibsVerif.Gen.CacheLockIR\nopen GolibsVerif.C10.Lock\n\n")
+	b.WriteString(body.String())
+	fmt.Fprintf(&b, "/-- the exported methods of `cache` (the entry points), in source order -/\ndef methods : List Method := [%s]\n\n", strings.Join(leanNames, ", "))
+	b.WriteString("/-- the critical-section profile of every method -/\ndef sections : List Profile := methods.map sectionsOf\n\n")
+	b.WriteString("-- diagnostics only: name the offending method, helper chain and event when `lock_discipline` is going to fail,\n")
+	b.WriteString("-- and what differs when `sections_expected` is going to fail\n")
+	b.WriteString("#eval (report methods).forM (m := IO) IO.println\n")
+	b.WriteString("#eval (profileReport sections Expected.sections).forM (m := IO) IO.println\n\n")
 	b.WriteString("end GolibsVerif.Gen.CacheLockIR\n")
 	return b.String(), nil
 }
@@ -1153,6 +1793,10 @@ func (t *clTr) emit(b *strings.Builder, ss []clStmt, depth int) {
 			fmt.Fprintf(b, "%s.callOnDelete%s%s\n", ind, sep, t.note(s))
 		case clRet:
 			fmt.Fprintf(b, "%s.ret%s%s\n", ind, sep, t.note(s))
+		case clCall:
+			fmt.Fprintf(b, "%s.call %s [%s\n", ind, c20LeanStrLit(s.name), t.note(s))
+			t.emit(b, s.thn, depth+2)
+			fmt.Fprintf(b, "%s  ]%s\n", ind, sep)
 		case clIte, clLoop:
 			kw := ".ite"
 			if s.kind == clLoop {
